@@ -626,7 +626,9 @@ def module_attr(interp, modname, attr):
     full = f"{modname}.{attr}"
     full = ALIASES.get(full, full)
     if full in CONSTANTS:
-        return interp.A.conc(CONSTANTS[full]) if not isinstance(CONSTANTS[full], DType) else CONSTANTS[full]
+        if isinstance(CONSTANTS[full], (list, tuple, DType)):
+            return CONSTANTS[full]
+        return interp.A.conc(CONSTANTS[full])
     In = I()
     if full in LIB or full.rsplit(".", 1)[-1] in DTYPES and full.split(".")[0] in ("numpy", "numba"):
         return In.LibRef(full)
@@ -1353,11 +1355,60 @@ class HashOf:
 class SymStr:
     """String made of literal pieces and formatted symbolic integers: [('lit', s) | ('int', term, spec)]."""
 
+    WIDTH = {"04d": (4, 0, 9999), "02d": (2, 0, 99), "": (1, 0, 9), "d": (1, 0, 9), "nopad4": (4, 1000, 9999)}
+
     def __init__(self, parts):
         self.parts = parts
 
     def __repr__(self):
         return f"SymStr({self.parts})"
+
+    def layout(self, interp, st):
+        """-> list of (start, end, part); fixed-width layout, with the value ranges it relies on as obligations."""
+        pos, out = 0, []
+        for p in self.parts:
+            if p[0] == "lit":
+                wdt = len(p[1])
+            else:
+                spec = p[2]
+                if spec not in self.WIDTH:
+                    interp.oblige(st, "label-layout", False, f"integer formatted with {spec!r} has no fixed width")
+                    raise Unsupported(f"format spec {spec!r} without fixed width")
+                wdt, lo, hi = self.WIDTH[spec]
+                interp.oblige(st, "label-layout", z3.And(p[1] >= lo, p[1] <= hi), f"value formatted with {spec!r} keeps its width")
+            out.append((pos, pos + wdt, p))
+            pos += wdt
+        return out, pos
+
+    def pysym_getitem(self, interp, st, idx):
+        lay, total = self.layout(interp, st)
+        In = I()
+        if isinstance(idx, In.SliceV):
+            a, b, _ = slice(interp.use(st, idx.lo), interp.use(st, idx.hi), None).indices(total)
+        else:
+            k = interp.use(st, idx)
+            k = k + total if k < 0 else k
+            a, b = k, k + 1
+        parts = [p for (s0, e0, p) in lay if s0 >= a and e0 <= b]
+        covered = sum(e0 - s0 for (s0, e0, p) in lay if s0 >= a and e0 <= b)
+        if covered != b - a:
+            raise Unsupported("slice cuts through a formatted field")
+        if len(parts) == 1 and parts[0][0] == "lit":
+            return parts[0][1]
+        return SymStr(parts)
+
+    def pysym_int(self, interp, st):
+        if len(self.parts) == 1 and self.parts[0][0] == "int":
+            return self.parts[0][1]
+        if all(p[0] == "lit" for p in self.parts):
+            return int("".join(p[1] for p in self.parts))
+        raise Unsupported("int() of a composite symbolic string")
+
+    def pysym_isinstance(self, t):
+        return isinstance(t, PyType) and t.pyname == "str"
+
+    def pysym_len(self, interp, st):
+        return self.layout(interp, st)[1]
 
 
 def format_value(interp, st, v, spec, conversion):
@@ -1365,6 +1416,8 @@ def format_value(interp, st, v, spec, conversion):
     v = interp.use(st, v)
     if isinstance(v, In.Instance):
         v = b_str(interp, st, v)
+    if hasattr(v, "pysym_format"):
+        return v.pysym_format(interp, st, spec)
     if is_sym(v):
         return SymStr([("int", v, spec)])
     if isinstance(v, SymStr):
@@ -1512,6 +1565,7 @@ def _special(name, arity):
 
 
 CONSTANTS = {
+    "calendar.mdays": [0, 31, 28, 31, 30, 31, 30, 31, 31, 30, 31, 30, 31],
     "numpy.pi": math.pi, "numpy.nan": math.nan, "numpy.inf": math.inf, "math.pi": math.pi, "math.inf": math.inf,
     "math.nan": math.nan, "numpy.e": math.e,
 }
